@@ -187,6 +187,14 @@ func C08(tier string) int {
 		reasons := []reason{
 			{"quit", "QUIT\r\n", false, ""},
 			{"4-errors", "FOO\r\nBAR\r\n\r\nBAZZ\r\n", false, ""},
+			// the 4th error of each kind the command loop distinguishes
+			{"4th-error-unknown-verb", "\r\nNOOPX\r\nFOO\r\nBAZZ x\r\n", false, ""},
+			{"4th-error-empty-line", "BAZZ\r\nNOOPX\r\nFOO\r\n\r\n", false, ""},
+			{"4th-error-too-short", "BAZZ\r\nNOOPX\r\n\r\nFOO\r\n", false, ""},
+			{"4th-error-five-octets", "BAZZ\r\n\r\nFOO\r\nNOOPX\r\n", false, ""},
+			{"4th-error-no-space", "BAZZ\r\n\r\nFOO\r\nMAILFROM:<a@b>\r\n", false, ""},
+			// a backend that calls Conn.Reject inside NewSession and still returns a session
+			{"reject-in-newsession", strings.Replace(hl, "c.example", "closeme.example", 1), false, "fresh-only"},
 			{"long-line", "NOOP " + strings.Repeat("a", 200) + "\r\n", false, ""},
 			{"panic-mail", "MAIL FROM:<panic@a.example>\r\n", true, "greeted-nomail"},
 			{"panic-rcpt", "RCPT TO:<panic@b.example>\r\n", true, "mail"},
@@ -197,6 +205,10 @@ func C08(tier string) int {
 		for _, p := range prefixes {
 			for _, r := range reasons {
 				switch r.needs {
+				case "fresh-only":
+					if p.name != "fresh" {
+						continue
+					}
 				case "greeted-nomail":
 					if p.name == "fresh" || p.name == "mid-bdat" {
 						continue
